@@ -29,6 +29,7 @@ import (
 	"verif.local/engine/lib/ccm"
 	"verif.local/engine/lib/gov"
 	"verif.local/engine/lib/probe"
+	"verif.local/engine/lib/src"
 	"verif.local/engine/polyenv"
 )
 
@@ -124,7 +125,7 @@ func main() {
 	cov := map[string]any{}
 
 	// ---- (b) static extraction first (cheap; its result also drives the validation of (a)'s observations)
-	x := &extractor{fset: token.NewFileSet(), overlay: loadOverlay(), pkgs: map[string]*pkgInfo{}, PkgVarPrefixes: map[string]string{}, callerNames: map[string]string{}}
+	x := &extractor{fset: token.NewFileSet(), overlay: loadOverlay(src.Replaced()), pkgs: map[string]*pkgInfo{}, PkgVarPrefixes: map[string]string{}, callerNames: map[string]string{}}
 	x.run()
 	kinds := kindsOf(x.Sites)
 	if len(x.Sites) < 200 || len(kinds) < 40 {
@@ -175,7 +176,7 @@ func main() {
 			}(w)
 		}
 		batch := make([][]probe.Op, 0, 128)
-		probe.SpaceA(L, 2, 1, func(p []probe.Op) bool {
+		probe.SpaceA(L, 2, 1, nil, func(p []probe.Op) bool {
 			batch = append(batch, p)
 			if len(batch) == 128 {
 				jobs <- batch
@@ -362,7 +363,7 @@ func main() {
 					r.Case("variant/" + cname)
 					continue
 				}
-				wit, n := collide(A.Segs, B.Segs, self)
+				wit, n := collidePreferNonEmpty(A.Segs, B.Segs, self)
 				productStates += n
 				r.Eval()
 				if wit == nil {
@@ -587,7 +588,7 @@ func sampleParams(p []Seg, t int) [][]byte {
 			}
 			out[i] = b
 		default:
-			out[i] = []byte(fmt.Sprintf("v%d-%d", i, t))
+			out[i] = []byte(fmt.Sprintf("9%d%d", i, t)) // decimal text: also a legal value for textual (numeric) segments
 		}
 	}
 	return out
@@ -753,7 +754,7 @@ func modelSelfTest() {
 		{[]Seg{L("x"), F(8)}, []Seg{L("y"), F(8)}, false, false},
 	}
 	for i, c := range cases {
-		w, _ := collide(c.a, c.b, c.self)
+		w, _ := collide(c.a, c.b, c.self, 0)
 		if (w != nil) != c.want {
 			r.HarnessError("model self-test %d failed", i)
 		}
